@@ -202,7 +202,7 @@ impl CoverageFormat1<'_> {
     pub fn intersects(&self, glyphs: &IntSet<GlyphId>) -> bool {
         let glyph_count = self.glyph_count() as u32;
         let num_bits = 32 - glyph_count.leading_zeros();
-        if glyph_count > (glyphs.len() as u32) * num_bits / 2 {
+        if glyph_count as u64 > glyphs.len().saturating_mul(num_bits as u64) / 2 {
             glyphs.iter().any(|g| self.get(g).is_some())
         } else {
             self.glyph_array()
@@ -246,7 +246,7 @@ impl CoverageFormat2<'_> {
     pub fn intersects(&self, glyphs: &IntSet<GlyphId>) -> bool {
         let range_count = self.range_count() as u32;
         let num_bits = 32 - range_count.leading_zeros();
-        if range_count > (glyphs.len() as u32) * num_bits / 2 {
+        if range_count as u64 > glyphs.len().saturating_mul(num_bits as u64) / 2 {
             glyphs.iter().any(|g| self.get(g).is_some())
         } else {
             self.range_records()
@@ -615,5 +615,20 @@ mod tests {
         let device =
             Device::read([0xffu8, 0xff, 0xff, 0xff, 0, 1, 0x40, 0][..].into()).unwrap();
         assert_eq!(device.iter().collect::<Vec<_>>(), &[1]);
+    }
+
+    /// `glyphs.len() as u32 * num_bits` used to overflow for an inverted
+    /// set.
+    #[test]
+    fn coverage_intersects_inverted_set() {
+        let mut glyphs: IntSet<GlyphId> = IntSet::all();
+        glyphs.remove(GlyphId::new(0x2_0000));
+        let format1 = CoverageTable::read([0u8, 1, 0, 2, 0, 3, 0, 9][..].into()).unwrap();
+        assert!(format1.intersects(&glyphs));
+        let format2 = CoverageTable::read(
+            [0u8, 2, 0, 2, 0, 3, 0, 4, 0, 0, 0, 8, 0, 9, 0, 2][..].into(),
+        )
+        .unwrap();
+        assert!(format2.intersects(&glyphs));
     }
 }
